@@ -342,15 +342,19 @@ Qed.
 
 (* ---------- the length of the adjusted curve ---------- *)
 
+Lemma edist_le_l1 q q' : edist q q' <= Rabs (fst q - fst q') + Rabs (snd q - snd q').
+Proof.
+  unfold edist. pose proof (Rabs_pos (fst q - fst q')) as Px. pose proof (Rabs_pos (snd q - snd q')) as Py.
+  rewrite <- (sqrt_pow2 (Rabs (fst q - fst q') + Rabs (snd q - snd q'))) by lra.
+  apply sqrt_le_1_alt.
+  replace ((fst q' - fst q) ^ 2) with ((fst q - fst q') ^ 2) by ring.
+  replace ((snd q' - snd q) ^ 2) with ((snd q - snd q') ^ 2) by ring.
+  rewrite <- (pow2_abs (fst q - fst q')), <- (pow2_abs (snd q - snd q')). nra.
+Qed.
+
 Lemma edist_perturb a q q' : Rabs (edist a q - edist a q') <= Rabs (fst q - fst q') + Rabs (snd q - snd q').
 Proof.
-  assert (T : edist q q' <= Rabs (fst q - fst q') + Rabs (snd q - snd q')).
-  { unfold edist. pose proof (Rabs_pos (fst q - fst q')) as Px. pose proof (Rabs_pos (snd q - snd q')) as Py.
-    rewrite <- (sqrt_pow2 (Rabs (fst q - fst q') + Rabs (snd q - snd q'))) by lra.
-    apply sqrt_le_1_alt.
-    replace ((fst q' - fst q) ^ 2) with ((fst q - fst q') ^ 2) by ring.
-    replace ((snd q' - snd q) ^ 2) with ((snd q - snd q') ^ 2) by ring.
-    rewrite <- (pow2_abs (fst q - fst q')), <- (pow2_abs (snd q - snd q')). nra. }
+  pose proof (edist_le_l1 q q') as T.
   pose proof (edist_triangle a q q') as T1. pose proof (edist_triangle a q' q) as T2.
   rewrite (edist_sym q' q) in T2. apply Rabs_le. lra.
 Qed.
